@@ -1,5 +1,5 @@
 #!/venv/bin/python
-"""usage: run_on.py <keep-id|seeded-id> <prop> : runs one check on one stored patch (as overlay) and prints all non-discharged obligations"""
+"""usage: run_on.py <keep-id | s:seeded-id> <prop> : runs one check on one stored patch (as overlay) and prints all non-discharged obligations"""
 import sys, os
 sys.path.insert(0, '/verif')
 sys.path.insert(0, '/verif/tools')
@@ -7,7 +7,7 @@ import warnings; warnings.simplefilter('ignore')
 from keep_matrix import patched_files, WT
 import subprocess
 kid, prop = sys.argv[1], sys.argv[2]
-d = f'/verif/keeps/{kid}/keep.diff' if os.path.exists(f'/verif/keeps/{kid}/keep.diff') else f'/verif/seeded/{kid}/patch.diff'
+d = f'/verif/seeded/{kid[2:]}/patch.diff' if kid.startswith('s:') else f'/verif/keeps/{kid}/keep.diff'
 subprocess.check_call(['git', '-C', WT, 'checkout', '-q', '--detach', subprocess.check_output(['git', '-C', '/repo', 'rev-parse', 'HEAD']).decode().strip()])
 ov = patched_files(d)
 from sa.run import check
